@@ -42,7 +42,8 @@ RULE = (
     'trainers and 6 distribution trainers on SHARED trainer objects, model '
     'methods, cACGMM split / restart jobs, initializers, PSD, all '
     'get_bf_vector names and beamforming primitives, masks, aligners, '
-    'metrics, foreign RNG draws, seterr) with fault decorations (interrupt '
+    'metrics, foreign RNG draws, seterr, pairs of calls on two caller '
+    'threads under a seeded pre-emption schedule) with fault decorations (interrupt '
     'at the n-th Python line inside pb_bss, cancellation at an EM step, '
     'failing LAPACK call). distinct = distinct schedule signature (sequence '
     'of (entry, trainer kind, D, fault kind fired, outcome class)); '
@@ -67,10 +68,13 @@ COMPONENTS = {
                         'numpy.linalg.{eigh,eig,solve,lstsq} shim',
                         'sys.settrace interrupt injector',
                         'EM step observer (cancellation)',
-                        'np.seterr environment'],
-    'outside_catalogue': ['BinaryGMMTrainer (scikit-learn KMeans)',
-                          'pb_bss.evaluation.wrapper / pesq / stoi / '
-                          'mir_eval / srmr (optional deps not installed)',
+                        'np.seterr environment',
+                        'thread scheduler (two caller threads, one baton, '
+                        'seeded pre-emption points)',
+                        'BLAS thread limit (caller limit 1 or 2)',
+                        'process seam (fork: pristine-process replica)'],
+    'outside_catalogue': ['pb_bss.evaluation.wrapper metrics that need pesq / '
+                          'stoi / mir_eval / srmr (optional deps not installed)',
                           'pb_bss.transform, pb_bss.testing'],
 }
 
